@@ -855,7 +855,8 @@ class ProtocolTransportMixin:
         self.transport.write(data.replace(b"\n", b"\r\n"))
 
     def writeSequence(self, seq):
-        self.transport.writeSequence(seq)
+        # Apply the same transformations as write().
+        self.write(b"".join(seq))
 
     def loseConnection(self):
         self.transport.loseConnection()
